@@ -364,8 +364,24 @@ func run(p *kernel.Plan) (res *kernel.Result) {
 		if len(fresh) == 0 {
 			continue
 		}
-		if len(fresh) > 1 {
-			return fail("harness/poll-too-coarse", "%d sampler observations within one polling step", len(fresh))
+		var unseen []int // indices in samplerObs of samples whose effect on the getters was not observed
+		for len(fresh) > 1 {
+			// several samples within one polling step (a sampler catching up after
+			// a stall): the getters could not be read in between, so the earlier
+			// ones only join the history as candidates
+			e := fresh[0]
+			fresh = fresh[1:]
+			if n := len(samplerObs); n >= 1 && firstNZ >= 0 && (int64(e.val-samplerObs[n-1].val) < 0 || e.val == 0) {
+				monotone = false
+			}
+			samplerObs = append(samplerObs, e)
+			unseen = append(unseen, len(samplerObs)-1)
+			if firstNZ < 0 && e.val != 0 {
+				firstNZ = len(samplerObs) - 1
+			}
+			regular = false
+			res.Stat("sampler_observations", 1)
+			res.Stat("samples_not_individually_observed", 1)
 		}
 		o := fresh[0]
 		if n := len(samplerObs); n > 0 && o.at-samplerObs[n-1].at != 10*time.Second {
@@ -439,10 +455,21 @@ func run(p *kernel.Plan) (res *kernel.Result) {
 			// window old (0 if the counter is not above it)
 			okStale := near(v, w.prev)
 			okFired := false
-			for _, h := range samplerObs[firstNZ : len(samplerObs)-1] {
-				if o.at-h.at >= w.w && near(v, rate(h.val, o.val, w.w, scale)) {
+			// the rate may stem from this sample or from one of the samples taken
+			// within the same polling step (whose effect could not be read)
+			ends := append(append([]int(nil), unseen...), len(samplerObs)-1)
+			for _, ei := range ends {
+				e := samplerObs[ei]
+				if ei < firstNZ {
+					continue
+				}
+				for _, h := range samplerObs[firstNZ:ei] {
+					if e.at-h.at >= w.w && near(v, rate(h.val, e.val, w.w, scale)) {
+						okFired = true
+					}
+				}
+				if ei == firstNZ && v == 0 {
 					okFired = true
-					break
 				}
 			}
 			if !okStale && !okFired {
@@ -497,6 +524,8 @@ func dedupe(h []head) []head {
 
 var Check = &kernel.Check{
 	ID: "C20", Gen: gen, Run: run, Bubble: true,
+	// a sampler goroutine that never leaves after Close() is outside the statement
+	IgnoreBubbleLeak: true,
 	Simpler: map[string][]int64{"startAt": {0}, "first": {0, 1}, "dur": {45000, 130000, 400000}},
 }
 
